@@ -86,6 +86,11 @@ func (m *machine) binop(op token.Token, t types.Type, x, y value) value {
 	}
 	sx, xs := x.(*symv)
 	sy, ys := y.(*symv)
+	if (xs || ys) && (isConcScalar(x) || tblOf(x) != nil) && (isConcScalar(y) || tblOf(y) != nil) {
+		if r, ok := m.liftBinop(op, t, x, y); ok {
+			return r
+		}
+	}
 	if !xs && !ys {
 		if (op == token.QUO || op == token.REM) && isConcreteInt(y) && isZeroInt(y) {
 			panic(m.rtPanic("integer divide by zero"))
@@ -503,12 +508,29 @@ func (m *machine) strLen(s value) value {
 	case string:
 		return len(s)
 	case *symv:
+		if s.tbl != nil {
+			if r, _, ok := m.lift([]value{s}, func(c []value) (value, bool) { return len(c[0].(string)), true }); ok {
+				return r
+			}
+		}
 		return mkInt("(str.len "+s.t+")", types.Int, s.lo, s.hi)
 	}
 	panic(engineErr(fmt.Sprintf("strLen: %T", s)))
 }
 
 func (m *machine) strIndex(s value, idx value) value {
+	if r, errT, ok := m.lift([]value{s, idx}, func(c []value) (value, bool) {
+		str, i := c[0].(string), asInt64(c[1])
+		if i < 0 || i >= int64(len(str)) {
+			return nil, false
+		}
+		return str[i], true
+	}); ok {
+		if errT != "false" && m.branch(errT) {
+			panic(m.rtPanic("index out of range (string)"))
+		}
+		return r
+	}
 	n := m.strLen(s)
 	it := termOf(idx)
 	in := "(and (>= " + it + " 0) (< " + it + " " + termOf(n) + "))"
@@ -572,6 +594,25 @@ func (m *machine) slice(x, lo, hi, max value) value {
 }
 
 func (m *machine) strSlice(x, lo, hi value) value {
+	if r, errT, ok := m.lift([]value{x, lo, hi}, func(c []value) (value, bool) {
+		str := c[0].(string)
+		l, h := int64(0), int64(len(str))
+		if c[1] != nil {
+			l = asInt64(c[1])
+		}
+		if c[2] != nil {
+			h = asInt64(c[2])
+		}
+		if l < 0 || h < l || h > int64(len(str)) {
+			return nil, false
+		}
+		return str[l:h], true
+	}); ok {
+		if errT != "false" && m.branch(errT) {
+			panic(m.rtPanic("slice bounds out of range (string)"))
+		}
+		return r
+	}
 	n := m.strLen(x)
 	var l value = 0
 	if lo != nil {
